@@ -91,7 +91,7 @@ func main() {
 		a.prg = append(a.prg, goja.MustCompile(f, string(src), false))
 	}
 	o := walk.Options{Worker: *worker, Workers: *workers, Seed: *seed, MaxTour: *maxTour, RandomWalks: *walks,
-		WalkLen: *walkLen, Journal: *journal, StepTimeout: 30 * time.Second}
+		WalkLen: *walkLen, Journal: *journal, StepTimeout: 120 * time.Second}
 	if *replay != "" {
 		data, err := os.ReadFile(*replay)
 		if err != nil {
